@@ -1285,7 +1285,18 @@ impl<'a, const C: usize, const R: usize, T: 'a + Copy + std::fmt::Debug> Layout<
     pub fn tick(&mut self) -> CustomEvent<'a, T> {
         let active_layer = self.current_layer() as u16;
         if let Some(chv2) = self.chords_v2.as_mut() {
-            self.queue.extend(chv2.tick_chv2(active_layer).drain(0..));
+            let mut drained = chv2.tick_chv2(active_layer);
+            for queued in drained.drain(0..) {
+                // Same handling of a full queue as in `event`, so that no event is lost.
+                if let Some(overflow) = self.queue.push_back(queued) {
+                    for i in -1..(EXTRA_WAITING_LEN as i8) {
+                        self.waiting_into_hold(i);
+                    }
+                    self.dequeue(overflow);
+                }
+            }
+        }
+        if let Some(chv2) = self.chords_v2.as_mut() {
             if let chord_action @ Some(_) = chv2.get_action_chv2() {
                 self.action_queue.push_back(chord_action);
                 self.oneshot.pause_input_processing_ticks =
@@ -1571,7 +1582,10 @@ impl<'a, const C: usize, const R: usize, T: 'a + Copy + std::fmt::Debug> Layout<
             self.historical_inputs.push_front((x, y));
         }
         if let Some(overflow) = if let Some(ch) = self.chords_v2.as_mut() {
+            // What falls out of the full chords queue is still newer than everything in the
+            // layout's own queue, so it has to go through that queue to keep the order of events.
             ch.push_back_chv2(event.into())
+                .and_then(|overflow| self.queue.push_back(overflow))
         } else {
             self.queue.push_back(event.into())
         } {
